@@ -185,6 +185,9 @@ func runDB(dir string, s sess.Session) {
 			}
 		case "mark":
 			mark(op.Text)
+		case "abandon":
+			// the handle is dropped without Close: the directory is left the way a stopped process leaves it
+			db = nil
 		default:
 			fatal(fmt.Errorf("unknown op %q", op.Op))
 		}
